@@ -69,6 +69,9 @@ THEOREMS = [
     "Verif.C15.extraction_spec_observed_minimum",
     "Verif.C15.observed_minimum_is_least",
     "Verif.C15.extraction_observed_minimum_never_refuses",
+    "Verif.C15.fit_binding_defaults",
+    "Verif.C15.fit_binding_rows_spec",
+    "Verif.C15.fit_binding_rows_legacy",
     "Verif.C15.gradient_continuous_correct_amp",
     "Verif.C15.gradient_continuous_correct_tau",
     "Verif.C15.gradient_discrete_correct_amp",
@@ -931,6 +934,39 @@ def impl_lik(case):
 OPTIMIZE = "_exponential_mle_optimize"
 
 
+def impl_fbt(case):
+    """KymoTrackGroup.fit_binding_times with its options given or left out (None): the arguments it hands to the public
+    DwelltimeModel constructor (recorded; the fit itself is not run) and the warnings it issues"""
+    _BUILT.clear()
+    group = build_group(case)
+    kw = {"exclude_ambiguous_dwells": case["excl"]}
+    if case["om"] is not None:
+        kw["observed_minimum"] = case["om"]
+    if case["disc"] is not None:
+        kw["discrete_model"] = case["disc"]
+    with warnings.catch_warnings(record=True) as wlist:
+        warnings.simplefilter("always")
+        with model_arguments_recorded(False) as seen:
+            try:
+                group.fit_binding_times(case["n"], **kw)
+            except _Captured:
+                pass
+            except Exception as e:
+                return [errname(e)]
+    if not seen:
+        return ["Error:NoModelConstructed"]
+    removed = any(issubclass(w.category, RuntimeWarning) and "zero" in str(w.message).lower() for w in wlist)
+    w_om = any(issubclass(w.category, UserWarning) and "observed_minimum" in str(w.message) for w in wlist)
+    w_disc = any(issubclass(w.category, UserWarning) and "discrete_model" in str(w.message) for w in wlist)
+    a = seen[0]
+    d = np.asarray(a["dwelltimes"], dtype=float)
+    lo, hi = (np.broadcast_to(np.asarray(a[k], dtype=float), d.shape) for k in MODEL_ARGS[1:3])
+    st = a["discretization_timestep"]
+    handed = st is not None
+    st = np.full(d.shape, np.nan) if st is None else np.broadcast_to(np.asarray(st, dtype=float), d.shape)
+    return [f"? {enc_bool(handed)} {enc_bool(w_om)} {enc_bool(w_disc)} " + show_rows([d, lo, hi, st], removed)]
+
+
 def assemble_fitted(case):
     """which parameters are left to the optimiser (from the docstring of _handle_amplitude_constraint: everything not
     fixed, except a single free amplitude, which is determined by the others)"""
@@ -1001,6 +1037,8 @@ def _impl(case):
         return impl_lik(case)
     if k == "assemble":
         return impl_assemble(case)
+    if k == "fbt":
+        return impl_fbt(case)
     if k == "fit":
         t, tmin, tmax, step, n = lik_args(case)
         status = []
@@ -1397,6 +1435,10 @@ def ops(case):
                     nc = case["ncomp"]
                     out.append(f"c15.jac {fl(v[0][:nc])} {fl(v[0][nc:])} {lik_tokens(case)}")
         return out
+    if k == "fbt":
+        ob = lambda v: "N" if v is None else enc_bool(v)  # noqa: E731
+        body = extract_op(case, case["tracks"], case["excl"], True).split(" ")[3:]
+        return [" ".join(["c15.fbt", str(case["n"]), enc_bool(case["excl"]), ob(case["om"]), ob(case["disc"])] + body)]
     if k == "assemble":
         mask = "N" if case["mask"] is None else enc_list(case["mask"], enc_bool)
         n = len(case["t"])
@@ -1501,6 +1543,25 @@ def agree_extract(case, ia, ma, ordered):
 def agree(case, i, ia, ma):
     k = case["op"]
     try:
+        if k == "fbt":
+            if ia.endswith("Error") or ma.endswith("Error") or ma == "bad-op":
+                return ia == ma
+            I, M = ia.split(" "), ma.split(" ")
+            if I[1:4] != M[1:4]:
+                return False
+            R, f1 = parse_rows(" ".join(I[4:]))
+            Q, f2 = parse_rows(" ".join(M[4:]))
+            if f1 != f2 or len(R) != len(Q):
+                return False
+            for r, q in zip(R, Q):
+                for j, (x, y) in enumerate(zip(r, q)):
+                    xv = dec_float(x)
+                    if j == 3 and M[1] == "F":
+                        if not math.isnan(xv):
+                            return False
+                    elif not close(xv, float(dec_rat(y)), 1e-9, 1e-15):
+                        return False
+            return True
         if k == "assemble":
             if ia == "?":
                 return True
@@ -1653,6 +1714,8 @@ def oracle(case, ia):
             return oracle_likwin(case, ia)
         if k == "assemble":
             return oracle_assemble(case, ia)
+        if k == "fbt":
+            return oracle_fbt(case, ia)
         if k == "fit":
             return oracle_fit(case, ia)
         if k == "constraint":
@@ -1701,6 +1764,31 @@ def oracle_likwin(case, ia):
             if not close(nll, nllp, 1e-10, 1e-12 * sc):
                 return f"relabel-invariant: -log L = {nll!r}, after relabelling components with {case['perm']} {nllp!r}"
     return None
+
+
+def oracle_fbt(case, ia):
+    """from the documentation of fit_binding_times: an empty group cannot be analysed; only 1 and 2 components are
+    supported; observed_minimum left out means the legacy mode (with a warning), discrete_model left out means the
+    continuous model (with a warning): the time step is handed to the model iff discrete_model is True; the rows are those
+    of the property text for the mode in force"""
+    a = ia[0]
+    if not case["tracks"]:
+        return None if a == "RuntimeError" else f"fit-binding-times-empty-group: {a[:80]}"
+    if case["n"] not in (1, 2):
+        return None if a == "ValueError" else f"fit-binding-times-components: n_components={case['n']} gave {a[:80]}"
+    om = True if case["om"] is None else case["om"]
+    disc = False if case["disc"] is None else case["disc"]
+    derived = dict(case, op="extract", obsmin=om, via="fit", discrete=disc)
+    if a.endswith("Error"):
+        return oracle_extract(derived, [a])
+    toks = a.split(" ")
+    if (toks[1] == "T") != disc:
+        return f"fit-binding-times-step: discrete_model={case['disc']} but the time step was {'handed' if toks[1] == 'T' else 'not handed'} to the model"
+    if (toks[2] == "T") != (case["om"] is None):
+        return f"fit-binding-times-warning: observed_minimum={case['om']}, deprecation warning issued: {toks[2]}"
+    if (toks[3] == "T") != (case["disc"] is None):
+        return f"fit-binding-times-warning: discrete_model={case['disc']}, default warning issued: {toks[3]}"
+    return oracle_extract(derived, [" ".join(toks[4:])])
 
 
 def oracle_assemble(case, ia):
@@ -2075,6 +2163,8 @@ def nontrivial(case, ia):
         return len(case["amps"]) >= 2 or case["step"] is not None or case["tmax"] != "inf"
     if k == "likwin":
         return window_depth(case) > 745.0
+    if k == "fbt":
+        return case["om"] is None or case["disc"] is None or case["n"] not in (1, 2) or not case["tracks"]
     if k == "assemble":
         return not ia[0].endswith("Error") and (case["mask"] is not None and any(case["mask"]) or case["n"] >= 2)
     if k == "fit":
@@ -2155,7 +2245,7 @@ def shrink(case):
                     c["steps"] = [dict(x) for x in steps]
                     c["steps"][i]["tracks"] = st["tracks"][:j] + st["tracks"][j + 1:]
                     yield c
-    if k == "extract":
+    if k in ("extract", "fbt"):
         for i in range(len(case["tracks"])):
             if len(case["tracks"]) > 1:
                 c = dict(case)
@@ -2772,8 +2862,8 @@ def cases(tier, rng):
                               {"kymo": 1, "idx": [], "minobs": 0.5} if minobs else {"kymo": 1, "idx": [1], "minobs": None}]}
 
     # ---- seeded random streams
-    sizes = {"lik": 260, "fit": 140, "constraint": 400, "extract": 500, "extract-seq": 300, "validate": 60, "likwin": 120, "assemble": 250} if quick else \
-            {"lik": 4000, "fit": 2500, "constraint": 6000, "extract": 8000, "extract-seq": 5000, "validate": 600, "likwin": 1500, "assemble": 4000}
+    sizes = {"lik": 260, "fit": 140, "constraint": 400, "extract": 500, "extract-seq": 300, "validate": 60, "likwin": 120, "assemble": 250, "fbt": 150} if quick else \
+            {"lik": 4000, "fit": 2500, "constraint": 6000, "extract": 8000, "extract-seq": 5000, "validate": 600, "likwin": 1500, "assemble": 4000, "fbt": 2500}
     # ---- small scope: window probability below the range of doubles (the factored normalisation), all combinations
     for amps, taus in (([1.0], [0.001]), ([0.25, 0.75], [0.001, 0.01]), ([0.5, 0.25, 0.25], [0.01, 0.001, 0.1])):
         for lo2 in (1.0, 4.0):
@@ -2803,6 +2893,26 @@ def cases(tier, rng):
                         c["probe"] = [v for v, f in zip(full, assemble_fitted(c)) if f]
                         yield c
     yield from small_scope_fits()
+    # ---- small scope: fit_binding_times' own options: every combination of n_components x given/left-out flags on four groups
+    kym = [{"n_lines": 6, "line_time": 0.25}, {"n_lines": 5, "line_time": 0.5}]
+    groups = [[], [{"kymo": 0, "idx": [1, 2, 4], "minobs": 0.25}],
+              [{"kymo": 0, "idx": [0, 1], "minobs": 0.25}, {"kymo": 0, "idx": [2, 2], "minobs": 0.25}],
+              [{"kymo": 0, "idx": [1, 3], "minobs": 0.5}, {"kymo": 1, "idx": [1, 2, 3], "minobs": 0.5},
+               {"kymo": 0, "idx": [2, 3], "minobs": 0.25}, {"kymo": 1, "idx": [2], "minobs": None}]]
+    for tracks in groups:
+        for ncomp in (0, 1, 2, 3):
+            for excl, om, disc in itertools.product([False, True], [None, False, True], [None, False, True]):
+                yield {"stream": "small-scope", "op": "fbt", "kymos": kym, "tracks": tracks, "n": ncomp, "excl": excl,
+                       "om": om, "disc": disc, "via": "fit"}
+    r = rng.fork("c15-fbt")
+    for i in range(sizes["fbt"]):
+        ri = r.fork(i)
+        c = gen_extract(ri.fork("group"), i, via="fit")
+        if any(not tr["idx"] for tr in c["tracks"]):
+            continue
+        yield {"stream": "random-fbt", "op": "fbt", "kymos": c["kymos"], "tracks": c["tracks"],
+               "n": ri.choice([1, 1, 2, 2, 0, 3]), "excl": c["excl"], "om": ri.choice([None, None, False, True]),
+               "disc": ri.choice([None, None, False, True]), "via": "fit", "subseed": i}
     r = rng.fork("c15-assemble")
     for i in range(sizes["assemble"]):
         yield gen_assemble(r.fork(i), tier, i)
@@ -2839,6 +2949,8 @@ def extra_coverage(results):
     seq_edits = {}
     rare_lik = 0
     deep = {"cases": 0, "depth-745-1000": 0, "depth-1000-2500": 0, "depth-2500-5000": 0, "tmax-inf": 0, "discretised": 0}
+    fbt = {"cases": 0, "observed_minimum-left-out": 0, "discrete_model-left-out": 0, "RuntimeError": 0, "ValueError": 0,
+           "model-constructed": 0, "step-handed": 0}
     mle1 = {"closed-form-inside-the-bounds": 0, "closed-form-below-the-lower-bound": 0}
     asm = {"cases": 0, "ValueError": 0, "nothing-to-fit": 0, "all-fitted": 0, "some-fixed": 0, "one-free-amplitude": 0,
            "fixed-lifetime": 0, "constraint-handed": 0, "default-initial-guess": 0}
@@ -2878,6 +2990,16 @@ def extra_coverage(results):
             tt, lo_ = np.array(c["t"], dtype=float), arr(c["tmin"], nn)
             inside = float(np.mean(tt - lo_)) >= max(0.1 * float(np.min(lo_)), 1e-8)
             mle1["closed-form-inside-the-bounds" if inside else "closed-form-below-the-lower-bound"] += 1
+        if c["op"] == "fbt":
+            a = r["impl"][0]
+            fbt["cases"] += 1
+            fbt["observed_minimum-left-out"] += c["om"] is None
+            fbt["discrete_model-left-out"] += c["disc"] is None
+            if a.endswith("Error"):
+                fbt[a] = fbt.get(a, 0) + 1
+            else:
+                fbt["model-constructed"] += 1
+                fbt["step-handed"] += a.split(" ")[1] == "T"
         if c["op"] == "assemble":
             asm["cases"] += 1
             a = r["impl"][0]
@@ -2956,7 +3078,7 @@ def extra_coverage(results):
             "extraction": ext, "extraction_same_group_object_edited": dict(seq, edits=seq_edits), "amplitude_constraint": cons, "pdf_of_pooled_windows": pooled,
             "gradient_handed_to_the_optimiser": handed, "lik_cases_with_an_amplitude_below_1e-4": rare_lik,
             "likelihood_with_window_probability_below_the_range_of_doubles": deep,
-            "optimiser_assembly_with_fixed_parameters": asm, "one_component_closed_form": mle1, "exhaustive": False,
+            "optimiser_assembly_with_fixed_parameters": asm, "one_component_closed_form": mle1, "fit_binding_times_options": fbt, "exhaustive": False,
             "exhaustive_note": "the small-scope streams enumerate their finite spaces completely; the random streams do not",
             "dropped_for_margin": dict(_DROPPED),
             "private_members_the_harness_could_not_reach": dict(_UNREACHABLE)}
